@@ -52,6 +52,7 @@ type ISnap struct {
 	SLeader      string `json:"slid"`
 	SRev         uint64 `json:"srev"`
 	Blocked      bool   `json:"blocked,omitempty"`       // Status() did not return
+	PendCur      int    `json:"pend_cur,omitempty"`      // pending operations issued since the latest Start
 	CtxCancelled bool   `json:"ctx_cancelled,omitempty"` // the context passed to Start has been cancelled
 	StopFailed   bool   `json:"stop_failed,omitempty"`   // a shutdown was begun and returned an error: incomplete
 	Fine         bool   `json:"fine,omitempty"`          // taken inside a fine-mode window (a goroutine may be parked inside a critical section)
@@ -91,7 +92,8 @@ type Inst struct {
 	crashed      bool
 	partitioned  bool
 	inStopCall   int
-	stopDone     bool // a stop call returned nil and no Start since
+	stopDone     bool          // a stop call returned nil and no Start since
+	lastStart    time.Duration // virtual time of the latest successful Start
 	startCancel  context.CancelFunc
 	ctxCancelled bool // the context passed to the latest Start has been cancelled by the script
 	stopFailed   bool // a StopWithContext call returned an error (time-out, cancelled context) and no Start since
@@ -448,6 +450,7 @@ func (w *World) callAPI(in *Inst, it *Item) string {
 		} else {
 			in.startCancel = scancel
 			in.started = true
+			in.lastStart = w.now()
 			in.stopDone = false
 			in.stopFailed = false
 			in.ctxCancelled = false
